@@ -46,6 +46,16 @@ OTHER = (7, 9, "q", "zz", True, 5)  # the record matched before the one under te
 _D = None
 
 
+def earlier_records():
+    """Records matched by the same selector object before the one under test (readers and rdump reuse one selector for a whole
+    stream): one of the same type name with a different layout (schema evolution: caches keyed by the NAME go stale), one of the
+    same descriptor with other values."""
+    from flow.record import RecordDescriptor
+
+    D0 = RecordDescriptor(grammar.RECNAME, [("string", "x1"), ("varint", "x2"), ("string", "b")])
+    return [D0("other-layout", 1, "text-not-bool"), descriptor()(*OTHER)]
+
+
 def descriptor():
     global _D
     if _D is None:
@@ -82,7 +92,7 @@ def diff(expr: str, engine: str, mode: str = "equal", small: bool = False, strle
     descriptor()
     code, subs = selector_ref.compile_ref(expr)
     sel = Selector(expr) if engine == "i" else CompiledSelector(expr)
-    rec0 = descriptor()(*OTHER)
+    recs0 = earlier_records()
 
     def check(n: int, m: int, s: str, t: str, b: bool, o: Optional[int]) -> bool:
         """
@@ -98,10 +108,11 @@ def diff(expr: str, engine: str, mode: str = "equal", small: bool = False, strle
             return True
         rec = build_record(n, m, s, t, b, o)
         # selectors are reused for every record of a stream: match an unrelated record first (one-step history)
-        try:
-            sel.match(rec0)
-        except Exception:  # noqa: BLE001
-            pass
+        for rec0 in recs0:
+            try:
+                sel.match(rec0)
+            except Exception:  # noqa: BLE001
+                pass
         if mode == "raises":
             try:
                 sel.match(rec)
@@ -174,10 +185,11 @@ def replay(res):
     if not defined:
         return {"reproduced": False, "what": "reference not defined on the concrete values"}
     sel = Selector(a["expr"]) if a["engine"] == "i" else CompiledSelector(a["expr"])
-    try:
-        sel.match(D(*OTHER))
-    except Exception:  # noqa: BLE001
-        pass
+    for rec0 in earlier_records():
+        try:
+            sel.match(rec0)
+        except Exception:  # noqa: BLE001
+            pass
     try:
         got = bool(sel.match(rec))
         raised = None
@@ -191,6 +203,6 @@ def replay(res):
         key = f"C07/outside/{a['engine']}/{a['expr']}"
     else:
         bad = raised is not None or got != exp
-        what = f"{engine}({a['expr']!r}) on {v} (after matching {OTHER}): {'raised ' + raised if raised else got}, Python meaning: {exp}"
+        what = f"{engine}({a['expr']!r}) on {v} (after matching a same-name record of another layout and {OTHER}): {'raised ' + raised if raised else got}, Python meaning: {exp}"
         key = f"C07/{a['engine']}/{a['expr']}"
     return {"reproduced": bool(bad), "key": key, "what": what, "input": {"expr": a["expr"], "engine": a["engine"], "values": v}}
